@@ -1,6 +1,8 @@
 //! verif-harness: drives the real rs-matter code for the model-based checks in /verif.
 mod c03;
 mod c03g;
+mod hs;
+mod c02;
 mod c04;
 mod c05;
 mod c09;
@@ -23,6 +25,7 @@ fn main() {
     let h = std::thread::Builder::new()
         .stack_size(1 << 30)
         .spawn(move || match cmdc.as_str() {
+            "c02" => c02::run(&a[2..]),
             "c03" => c03::run(&a[2..]),
             "c04e2e" => c03::run_ctr(&a[2..]),
             "c04" => c04::run(&a[2..]),
